@@ -20,7 +20,7 @@ func init() {
 			"parsed and/or caller-supplied raw buckets, hash algorithms SHA-256/384/512 and unknown ids, right and wrong digest lengths, optional fields present/absent/wrongly typed. Whenever bytes are returned they must parse (reference parser) as a tagged COSE_Sign1 " +
 			"obeying the envelope rules with 258 = given algorithm, 259/260 as given when given, payload = hash value; VerifyHashEnvelope with the matching key must accept them and return those values; the deep snapshot of the caller's Headers must be unchanged after every call. " +
 			"verifier runs: a byzantine issuer (the foreign peer) signs rule-breaking envelopes with VALID signatures - the four governed labels moved/added/removed/mistyped in either bucket, wrong digest length - and VerifyHashEnvelope may return a message only if " +
-			"the reference signature verdict is true and the reference envelope rules hold. Non-trivial = a producer output or verifier verdict was judged; distinct = distinct (base-header class, hash, optional fields, rule broken, outcome) sequence.",
+			"the reference signature verdict is true and the reference envelope rules hold. Base headers may be preloaded with exactly the 258/259/260 the calls then give; governed labels in the unprotected bucket also with blanked values (null, undefined, empty). Non-trivial = a producer output or verifier verdict was judged; distinct = distinct (base-header class, hash, optional fields, rule broken, outcome) sequence.",
 		Assumptions: []string{"envelope rules as worded by the property (draft-ietf-cose-hash-envelope-05 section 4)", "Go crypto primitives are correct"},
 		Real:        []string{"github.com/veraison/go-cose (hash_envelope.go, sign1.go, headers.go)", "github.com/fxamacker/cbor/v2", "Go crypto"},
 		Stubs:       []string{"byzantine issuer (reference encoder signing non-conforming envelopes)", "entropy source"},
